@@ -22,7 +22,9 @@ RULE = (
     "arm forks the writers as separate processes that sleep drawn micro-delays at the same yield points. "
     "About three thread cases in ten additionally yield at every Python call into drawn dvc_data modules (state, cache, "
     "db, build/hash, or all), so interleavings between statements that involve no filesystem operation are "
-    "reached. In a third of the cases the store starts with unprotected truncated leftovers of an interrupted add under "
+    "reached; half of those cases are guided: writers 0 and 1 are held at drawn call labels (vocabulary = calls "
+    "observed in a warm-up workload, frequent ones likelier) until both stand there and are then released in a "
+    "drawn order. In a third of the cases the store starts with unprotected truncated leftovers of an interrupted add under "
     "some of the writers' object names; in a quarter all contents hash into one fan-out directory. "
     "Oracle (schedule-independent): no writer raised / reported failed ids; each writer's directory object "
     "is present with bytes == the reference listing of its manifest and every listed file present with "
@@ -78,10 +80,18 @@ def cases(draw, big_ok=False):
         # final name holding a proper prefix of its bytes (indices into the sorted file ids of all writers)
         # thread arm only: additionally yield at every Python call into these dvc_data modules
         # (function-call granularity), in about 3 cases of 10
-        "trace": draw(st.sampled_from([None] * 12 + [["state.py", "hash_info.py", "utils.py", "meta.py"],
+        "trace": draw(st.sampled_from([None] * 6 + [["state.py", "hash_info.py", "json_compat.py", "meta.py"],
+                                                   ["state.py", "hash_info.py", "json_compat.py", "meta.py"],
                                                     ["state.py", "cache.py"], ["db/__init__.py", "db/local.py"],
                                                     ["build.py", "hash.py", "tree.py"], ["transfer.py", "status.py"],
                                                     []])),
+        # guided search (call-granularity cases only): writers 0 and 1 are held at drawn call labels until both
+        # stand there, then released in a drawn order (indices into the label vocabulary of the traced modules)
+        "rv": draw(st.one_of(st.none(), st.fixed_dictionaries({
+            "la": st.integers(0, 400), "lb": st.integers(0, 400), "first": st.integers(0, 1),
+            "steps": st.sampled_from([1, 1, 2, 3, 5])}), st.fixed_dictionaries({
+            "la": st.integers(0, 400), "lb": st.integers(0, 400), "first": st.integers(0, 1),
+            "steps": st.sampled_from([1, 1, 2, 3, 5])}))),
         "leftovers": draw(st.lists(st.integers(0, 11), max_size=3)) if draw(st.integers(0, 2)) <= fanout else [],
     }
 
@@ -172,6 +182,35 @@ def _shape_pool(_b, case):
 
 
 _WARM = False
+_VOCAB = {}  # file suffix -> {label: count} observed in the warm-up workloads
+
+
+def _collect_vocab(fn):
+    import sys
+
+    def prof(frame, event, _arg):
+        if event == "call":
+            f = frame.f_code.co_filename
+            if "/dvc_data/" in f and not f.endswith("callbacks.py"):
+                d = _VOCAB.setdefault(f.split("/dvc_data/", 1)[1], {})
+                lab = "call:" + frame.f_code.co_name
+                d[lab] = d.get(lab, 0) + 1
+
+    sys.setprofile(prof)
+    try:
+        return fn()
+    finally:
+        sys.setprofile(None)
+
+
+def vocabulary(parts):
+    """Labels of the traced modules, each repeated ~sqrt(frequency) times (frequent calls are likelier picks)."""
+    out = []
+    for f in sorted(_VOCAB):
+        if not parts or f.endswith(tuple(parts)):
+            for lab, cnt in sorted(_VOCAB[f].items()):
+                out += [lab] * max(1, int(cnt ** 0.5))
+    return out
 
 
 def warm_up(ctx):
@@ -182,7 +221,7 @@ def warm_up(ctx):
     with ctx.tmpdir() as d:
         case = {"hardlink": False}
         gen.materialise({"a": "p:A", "sub": {"b": "p:B"}}, os.path.join(d, "ws0"))
-        writer_fn(case, d, 0)()
+        _collect_vocab(writer_fn(case, d, 0))
         case = {"hardlink": True}
         gen.materialise({"a": "p:A", "c": "p:C"}, os.path.join(d, "ws1"))
         writer_fn(case, d, 1)()
@@ -290,6 +329,7 @@ def run_case(case, ctx):  # noqa: C901, PLR0912
         viols = []
         counters = {}
         switches = 0
+        rv_hits = None
         by_oid = {}
         for i in range(n):
             for rel, foid in mans[i].items():
@@ -305,7 +345,14 @@ def run_case(case, ctx):  # noqa: C901, PLR0912
             shared = State(root_dir=d, tmp_dir=os.path.join(d, "tmp")) if case["shared_state"] else None
             try:
                 fns = [writer_fn(case, d, i, shared) for i in range(n)]
-                s, results = sched.run_scheduled(d, case["schedule"], fns, trace=case.get("trace"))
+                rv = None
+                if case.get("rv") and case.get("trace") is not None:
+                    voc = vocabulary(case["trace"])
+                    if voc:
+                        rv = {"labels": {0: voc[case["rv"]["la"] % len(voc)], 1: voc[case["rv"]["lb"] % len(voc)]},
+                              "first": case["rv"]["first"], "steps": case["rv"]["steps"]}
+                s, results = sched.run_scheduled(d, case["schedule"], fns, trace=case.get("trace"), rendezvous=rv)
+                rv_hits = s.rendezvous_hits if rv else None
             finally:
                 if shared is not None:
                     shared.close()
@@ -389,6 +436,10 @@ def run_case(case, ctx):  # noqa: C901, PLR0912
             cl.append("switches>=10")
         if switches >= 50:
             cl.append("switches>=50")
+        if case["arm"] == "threads" and case.get("rv") and case.get("trace") is not None:
+            cl.append("rendezvous-armed")
+            if rv_hits:
+                cl.append("rendezvous-reached")
         if case.get("trace") is not None and case["arm"] == "threads":
             cl.append("yield-at-calls:" + (",".join(case["trace"]) or "all-dvc_data"))
         if n_left:
